@@ -43,6 +43,11 @@ CHECKS = {
    "property testing of macro-generated code with a per-call step-count oracle; exhaustive enumeration of eof() input states",
    "Ten harness-defined blocks built with #[derive(Block)] (sync 1-2 inputs x 1-3 outputs, sync_tag, default/into fields, generated new() over copy and non-copy outputs) are driven with unequal inputs and unequal output space; every call must move exactly min(shortest input, smallest output space) samples on every stream and name an empty/full stream otherwise; values identify each output port; eof() is enumerated over all 4^n input states.",
    "3-input sync blocks cannot be compiled with the macro (recorded, not a runtime violation)", "DESIGN.md §5 C19"),
+
+ "C13": ("E2 drip-feed driver + E3 reference models", "exploration",
+   "round-trip and differential property testing (independent HDLC framer; checksum-on output vs CRC-filtered checksum-off output; exhaustive single-bit flips)",
+   "Generated transmissions built by an independent framer (bitwise CRC-16/X.25, stuffing, shared/separate flags, flag-free noise preamble) must be deframed to exactly the in-bounds payloads under any drip schedule; for arbitrary bit streams (flips, noise) the frames delivered with checksum on must be exactly the CRC-verified subset of those delivered with checksum off, and with fix-bits each delivery must be a verified frame or a single-bit repair; every single-flip position of three base transmissions is enumerated.",
+   "max_size inclusive; zero-length deliveries between adjacent flags ignored; no subset-of-payload claim for corrupted input", "DESIGN.md §5 C13"),
 }
 
 NOT_YET = {}
